@@ -131,101 +131,32 @@ def run(R, tier):
     # ---- R04.8 whole-element tables (sa/rules/lexer.py: element_table) -----------------------------------------------------
     LX.check_elements(R, "R04.8", ("mnemonic", "chardata", "decimal", "string", "expression", "block", "non-decimal", "separator"), tier == "thorough")
 
-    # ---- R04.1 length limits ----------------------------------------------------------------------------------
-    for reader, err in (("read_mnemonic", "ProgramMnemonicTooLong"), ("read_character_data", "CharacterDataTooLong"), ("read_suffix_data", "SuffixTooLong")):
-        b = u.body(TK + reader)
-        mir = b.mir
-        incs, chks = [], []
-        for bi in sorted(mir.live_blocks()):
-            blk = mir.blocks[bi]
-            for st in blk["stmts"]:
-                if st["k"] == "assign" and st["rv"]["k"] == "binop":
-                    rv = st["rv"]
-                    if rv["op"] in ("AddWithOverflow", "Add") and rv.get("ty") == "u8" and rv["b"]["k"] == "const" and rv["b"]["c"].get("int") == "1":
-                        incs.append((bi, rv["a"]["place"]["l"] if rv["a"]["k"] in ("copy", "move") else None))
-                    if rv["op"] in ("Gt", "Ge") and rv.get("ty") == "u8" and rv["b"]["k"] == "const":
-                        lim = int(rv["b"]["c"]["int"]) + (0 if rv["op"] == "Gt" else -1)
-                        t = blk["term"]
-                        if t["k"] == "switch":
-                            # which edge constructs the error
-                            errs = [tb for tb in mir.succs(bi) if any(s["k"] == "assign" and s["rv"]["k"] == "aggr" and s["rv"].get("variant") == err for s in mir.blocks[tb]["stmts"])]
-                            chks.append((bi, lim, bool(errs), rv["a"]))
-        ok = len(incs) == 1 and len(chks) == 1 and chks[0][1] == 12 and chks[0][2]
-        detail = "increments %s checks %s" % (incs, [(c[0], c[1], c[2]) for c in chks])
-        if ok:
-            inc_bi, counter = incs[0]
-            chk_bi = chks[0][0]
-            # counter incremented once per consumed byte: the increment block is reached right after the cursor advance
-            S = sym.Sym(mir)
-            loops = cfg.natural_loops(mir)
-            hdrs = [h for h, body in loops if inc_bi in body]
-            rets = set(mir.returns())
-            # from the increment, without passing the check, neither the loop head nor a return may be reachable
-            reach = cfg.reachable(mir, mir.succs(inc_bi), avoid={chk_bi}) if chk_bi != inc_bi else set()
-            # if the check is in the increment's own block chain (same block after assert) it is passed trivially
-            passes = chk_bi in cfg.reachable(mir, inc_bi) and not (reach & (set(hdrs) | rets)) if chk_bi not in mir.succs(inc_bi) and chk_bi != inc_bi else not (cfg.reachable(mir, [s for s in mir.succs(inc_bi) if s != chk_bi], avoid={chk_bi}) & (set(hdrs) | rets)) if chk_bi != inc_bi else True
-            # one cursor advance per increment: a call to Iter::next on self.chars dominates the increment inside the loop
-            adv = [c for c in b.calls() if c.rname.endswith("Iterator>::next") and c.bi in (hdrs and dict(loops)[hdrs[0]] or set()) and "&mut" in (c.term.get("argtys") or [""])[0]]
-            ok = passes and bool(hdrs) and len(adv) >= 1
-            detail += " loop heads %s passes=%s advances=%d" % (hdrs, passes, len(adv))
-        R.check(ok, "R04.1", reader + ":limit", "one counter, incremented per consumed byte; every way on from the increment passes `count > 12` -> %s" % err, "%s must count every consumed character and reject the 13th with %s before looping or returning (%s)" % (reader, err, detail), where=b.span)
+    # ---- R04.1 length limits / R04.2 a datum is followed by a separator: named rows of the element tables -----------------
+    # (Earlier versions inspected the readers' counters and their final skip_ws_to_separator call; that demanded one
+    # particular way of counting - a u8 counter - and of ending a reader, and reported behaviour-preserving rewrites:
+    # a slice-length difference instead of a counter, `let .. else` with slice patterns in read_numeric_data.)
+    table, span = LX.element_table(("mnemonic", "chardata", "decimal", "string", "expression", "block", "non-decimal"), tier == "thorough")
+    by_kind = {k: {d: (g, e) for d, g, e in table[k]} for k in table}
 
-    # ---- R04.2 datum => separator ------------------------------------------------------------------------------------
+    def named(rule, key, inputs, ok_text, kind=None):
+        rows = by_kind[kind or key.split(":")[0]]
+        missing = [d for d in inputs if d not in rows]
+        bad = ["%r: lexed as %s, expected %s" % (d, rows[d][0], rows[d][1]) for d in inputs if d in rows and rows[d][0] != rows[d][1]]
+        if missing:
+            R.anchor_lost(rule, "element table rows %r" % missing)
+        R.check(not bad and not missing, rule, key, ok_text + " (%d inputs)" % len(inputs), "; ".join(bad[:3]), where=span)
+
+    named("R04.1", "mnemonic:limit", [b"ABCDEFGHIJKL", b"ABCDEFGHIJKLM", b"ABCDEFGHIJKL:X", b"*ABCDEFGHIJK", b"*ABCDEFGHIJKL", b"SENSE12345678"], "12 characters accepted, 13 rejected")
+    named("R04.1", "chardata:limit", [b"ABCDEFGHIJKL", b"ABCDEFGHIJKLM", b"ABCDEFGHIJKL ,"], "12 characters accepted, 13 rejected")
+    named("R04.1", "suffix:limit", [b"1 ABCDEFGHIJKL", b"1 ABCDEFGHIJKLM"], "12 characters accepted, 13 rejected", kind="decimal")
+    named("R04.2", "string", [b'"abc"x', b'"abc" x', b'"abc" ,1', b'"abc";'], "only white space and then a separator may follow")
+    named("R04.2", "expression", [b"(a)x", b"(a) ,"], "only white space and then a separator may follow")
+    named("R04.2", "block", [b"#13abcd", b"#10x", b"#13abc ;", b"#10 ,5"], "only white space and then a separator may follow")
+    named("R04.2", "decimal", [b"1 2", b"1V 2", b"1 V ,2", b"1 ,2", b"1.5.5"], "only white space, a suffix and then a separator may follow")
+    named("R04.2", "non-decimal", [b"#HFFG", b"#Q7x", b"#HFF ,", b"#B1 ;"], "only white space and then a separator may follow")
+    named("R04.2", "chardata", [b"ON x", b"max,1", b"A_1;"], "only white space and then a separator may follow")
+
     eng = fdai.Engine(P, u, inline=lambda n, r: False, models={}, loop_limit=2, max_paths=4000)
-    readers = {
-        "read_character_data": (["CharacterProgramData"], 0),
-        "read_suffix_data": (["DecimalNumericSuffixProgramData"], 1),
-        "read_numeric_data": (["DecimalNumericProgramData"], 0),
-        "read_nondecimal_data": (["NonDecimalNumericProgramData"], 1),
-        "read_string_data": (["StringProgramData"], 2),
-        "read_arbitrary_data": (["ArbitraryBlockData"], 1),
-        "read_expression_data": (["ExpressionProgramData"], 0),
-    }
-    for reader, (variants, nargs) in readers.items():
-        b = u.body(TK + reader)
-        args = [RefV(Cell(TOP, "tok"), (), True)] + [SymV("a%d" % i, "arg%d" % i) for i in range(nargs)]
-        if reader == "read_string_data":
-            args = [RefV(Cell(TOP, "tok"), (), True), SymV("quote", "quote"), K(True)]
-        try:
-            res = eng.run(b, args)
-        except fdai.TooManyPaths as ex:
-            R.violation("R04.2", reader, "cannot enumerate the reader's paths: %s" % ex)
-            continue
-        n_ok = 0
-        badp = []
-        for r in res:
-            if r.outcome != "return":
-                continue
-            v = r.retval
-            if not (isinstance(v, EnumV) and v.name == "Ok"):
-                if isinstance(v, SymV) and isinstance(v.desc, tuple) and v.desc[0] == "ret" and v.desc[1].endswith("read_suffix_data") and reader == "read_numeric_data":
-                    n_ok += 1  # tail call into the suffix reader, which ends in the separator check itself
-                continue
-            tok = v.fields.get(0)
-            if not isinstance(tok, EnumV) and reader == "read_numeric_data":
-                # Ok(tok) where tok is the token read_nrf returned
-                tokname = "DecimalNumericProgramData"
-            else:
-                tokname = tok.name if isinstance(tok, EnumV) else None
-            if reader == "read_numeric_data" and any(e.kind == "assume" and e.name == "variant-other" and "read_nrf" in repr(e.args[0]) for e in r.trace):
-                continue  # read_nrf only ever returns DecimalNumericProgramData (checked below): this branch is dead
-            n_ok += 1
-            p = CB.Path(r)
-            sk = [e for e in r.trace if e.kind == "call" and e.name.endswith("skip_ws_to_separator")]
-            sk_ok = len(sk) >= 1 and p.assumed_variant("skip_ws_to_separator", 0) == "Ok"
-            end_ok = False
-            if reader == "read_numeric_data" and not sk:
-                # nothing follows the number: the peek at the cursor returned None
-                end_ok = any(e.kind == "assume" and e.name == "variant" and e.args[1] == "None" and "next" in repr(e.args[0]) for e in r.trace)
-            indefinite = reader == "read_arbitrary_data" and any(e.kind == "assume" and e.name == "sym" and "('K', 0)" in repr(e.args[0][2]) and e.args[1] is True for e in r.trace)
-            if not (sk_ok or end_ok or indefinite):
-                badp.append(p.describe())
-        R.check(n_ok >= 1 and not badp, "R04.2", reader, "every successful exit passes skip_ws_to_separator (or the input ends / indefinite block)", "%s can return a data element without checking that a separator (`,` `;` NL or end) follows: %s" % (reader, badp[:2]), where=b.span)
-
-    nrf = u.body(TK + "read_nrf")
-    made = {st["rv"]["variant"] for bi in nrf.mir.live_blocks() for st in nrf.mir.blocks[bi]["stmts"] if st["k"] == "assign" and st["rv"]["k"] == "aggr" and st["rv"].get("adt", "").endswith("token::Token")}
-    R.check(made == {"DecimalNumericProgramData"}, "R04.2", "read_nrf:token-kind", "read_nrf only constructs DecimalNumericProgramData", "read_nrf constructs %s" % sorted(made), where=nrf.span)
-
     # ---- R04.4 non-ASCII ------------------------------------------------------------------------------------------------
     for reader, err, args in (("read_string_data", "InvalidCharacter", [RefV(Cell(TOP, "tok"), (), True), SymV("quote", "quote"), K(True)]), ("read_expression_data", "InvalidExpression", [RefV(Cell(TOP, "tok"), (), True)])):
         b = u.body(TK + reader)
